@@ -90,6 +90,69 @@ row("Vec_Tuple_Map", "Vec<(String, BTreeMap<String, Inner>)>", ['vec![("a".to_st
 row("JsonValue", "serde_json::Value", ['serde_json::json!({"a": [1, null, "s", true, {"b": 1.5}]})', "serde_json::Value::Null"], users=["JsonValue"])
 
 
+# ---- feature-gated third-party rows (second corpus; needs the *-impl features of ts-rs)
+ROWS3 = []
+
+
+def row3(name, ty, vals, de=True, users=()):
+    ROWS3.append((name, ty, vals, de, list(users)))
+
+
+row3("chrono::NaiveDate", "chrono::NaiveDate", ["chrono::NaiveDate::from_ymd_opt(2020, 1, 2).unwrap()"], de=False)
+row3("chrono::NaiveTime", "chrono::NaiveTime", ["chrono::NaiveTime::from_hms_opt(1, 2, 3).unwrap()"], de=False)
+row3("chrono::NaiveDateTime", "chrono::NaiveDateTime", ["chrono::NaiveDate::from_ymd_opt(2020, 1, 2).unwrap().and_hms_opt(1, 2, 3).unwrap()"], de=False)
+row3("chrono::DateTime<Utc>", "chrono::DateTime<chrono::Utc>", ["chrono::DateTime::<chrono::Utc>::from_timestamp(0, 0).unwrap()"], de=False)
+row3("chrono::DateTime<FixedOffset>", "chrono::DateTime<chrono::FixedOffset>", ["chrono::DateTime::<chrono::Utc>::from_timestamp(0, 0).unwrap().fixed_offset()"], de=False)
+row3("chrono::Month", "chrono::Month", ["chrono::Month::January"], de=False)
+row3("chrono::Weekday", "chrono::Weekday", ["chrono::Weekday::Mon"], de=False)
+row3("uuid::Uuid", "uuid::Uuid", ["uuid::Uuid::nil()"], de=False)
+row3("url::Url", "url::Url", ['url::Url::parse("https://example.com/a?b=c").unwrap()'], de=False)
+row3("bigdecimal::BigDecimal", "bigdecimal::BigDecimal", ['"1.50".parse::<bigdecimal::BigDecimal>().unwrap()'], de=False)
+row3("bson::oid::ObjectId", "bson::oid::ObjectId", ["bson::oid::ObjectId::from_bytes([1u8; 12])"], de=False)
+row3("bson::Uuid", "bson::Uuid", ["bson::Uuid::from_bytes([1u8; 16])"], de=False)
+row3("bytes::Bytes", "bytes::Bytes", ['bytes::Bytes::from_static(b"ab")', "bytes::Bytes::new()"])
+row3("bytes::BytesMut", "bytes::BytesMut", ['bytes::BytesMut::from(&b"ab"[..])'])
+row3("indexmap::IndexSet", "indexmap::IndexSet<String>", ['indexmap::IndexSet::from(["a".to_string()])'])
+row3("indexmap::IndexMap", "indexmap::IndexMap<String, Inner>", ['indexmap::IndexMap::from([("k".to_string(), Inner::v1())])'], users=["Inner"])
+row3("OrderedFloat<f64>", "ordered_float::OrderedFloat<f64>", ["ordered_float::OrderedFloat(1.5f64)"])
+row3("OrderedFloat<f32>", "ordered_float::OrderedFloat<f32>", ["ordered_float::OrderedFloat(1.5f32)"])
+row3("heapless::Vec", "heapless::Vec<i32, 4>", ["heapless::Vec::<i32, 4>::from_slice(&[1, 2]).unwrap()"])
+row3("semver::Version", "semver::Version", ["semver::Version::new(1, 2, 3)"], de=False)
+row3("smol_str::SmolStr", "smol_str::SmolStr", ['smol_str::SmolStr::new("s")'])
+row3("serde_json::Number", "serde_json::Number", ["serde_json::Number::from(3)"])
+row3("serde_json::Map", "serde_json::Map<String, serde_json::Value>", ['{ let mut m = serde_json::Map::new(); m.insert("k".to_string(), serde_json::json!([1, "s"])); m }'], users=["JsonValue"])
+row3("Option<Vec<Uuid>>", "Option<Vec<uuid::Uuid>>", ["Some(vec![uuid::Uuid::nil()])", "None"], de=False)
+row3("BTreeMap<Uuid, Inner>", "BTreeMap<uuid::Uuid, Inner>", ["BTreeMap::from([(uuid::Uuid::nil(), Inner::v1())])"], de=False, users=["Inner"])
+row3("tokio::Mutex", "tokio::sync::Mutex<Inner>", [], de=False, users=["Inner"])
+row3("tokio::RwLock", "tokio::sync::RwLock<Vec<Inner>>", [], de=False, users=["Inner"])
+row3("tokio::OnceCell", "tokio::sync::OnceCell<i32>", [], de=False)
+NOSERDE3 = {"tokio::Mutex", "tokio::RwLock", "tokio::OnceCell"}
+FEATURES3 = ("serde-compat", "serde-json-impl", "chrono-impl", "uuid-impl", "url-impl", "bigdecimal-impl", "bson-uuid-impl", "bytes-impl",
+             "indexmap-impl", "ordered-float-impl", "heapless-impl", "semver-impl", "smol_str-impl", "tokio-impl")
+DEPS3 = """chrono = { version = "0.4", features = ["serde"] }
+uuid = { version = "1", features = ["serde"] }
+url = { version = "2", features = ["serde"] }
+bigdecimal = { version = "0.4", features = ["serde"] }
+bson = "2"
+bytes = { version = "1", features = ["serde"] }
+indexmap = { version = "2", features = ["serde"] }
+ordered-float = { version = "4", features = ["serde"] }
+heapless = { version = "0.8", features = ["serde"] }
+semver = { version = "1", features = ["serde"] }
+smol_str = { version = "0.3", features = ["serde"] }
+tokio = { version = "1", features = ["sync"] }
+"""
+
+
+def build_units3():
+    units = bindlib.helper_units()
+    for n, (name, ty, vals, de, users) in enumerate(ROWS3):
+        serde = name not in NOSERDE3
+        units.append(corpus.Unit("M%d" % n, "pub type M%d = %s;" % (n, ty), vals if serde else [], serde=serde, deser=de and serde, meta={"row": name, "ty": ty, "users": users}))
+        units.append(corpus.Unit("E%d" % n, "#[derive(TS)] pub struct E%d { pub f: %s }" % (n, ty), [], serde=False, meta={"depsof": n}))
+    return units
+
+
 def build_units():
     units = bindlib.helper_units()
     for n, (name, ty, vals, de, users) in enumerate(ROWS):
@@ -99,21 +162,11 @@ def build_units():
     return units
 
 
-def run(tier):
-    t0 = time.time()
-    v = vlib.Verdicts(PROP)
-    units = build_units()
-    c = corpus.Corpus("builtins", units, features=("serde-compat", "serde-json-impl"))
-    obs = c.observe()
-    env = bindlib.base_env(obs)
-    jv = [n for n, r_ in enumerate(ROWS) if r_[0] == "JsonValue"][0]
-    env["JsonValue"] = {k: bindlib.decl_record(obs["L%d" % jv]["info"]["decl"]["ok"])[k] for k in ("params", "body")}
-    if c.rejected:
-        raise ToolError("rows of the builtin table do not compile: %s" % json.dumps(c.rejected)[:1500])
-    records, meta = [], []
+def judge_rows(rows, prefix, dprefix, c, obs, env, v, acc):
+    """rows of one corpus -> records/meta appended to acc; dependency rows judged directly"""
     wreqs = []
-    for n, (name, ty, vals, de, users) in enumerate(ROWS):
-        o = obs["L%d" % n]
+    for n, (name, ty, vals, de, users) in enumerate(rows):
+        o = obs["%s%d" % (prefix, n)]
         info = o["info"]
         for which in ("name", "inline"):
             if "ok" not in info[which]:
@@ -128,43 +181,62 @@ def run(tier):
             for k, s in enumerate(o["samples"]):
                 if "ok" not in s:
                     continue
-                records.append({"kind": "ser", "decls": [], "root": root, "json": tsparse.json_value(json.loads(s["ok"])), "accepted": True, "reser": {"k": "null"}})
-                meta.append((name, which, "ser", s["ok"], info[which]["ok"]))
+                acc["records"].append({"kind": "ser", "decls": [], "root": root, "json": tsparse.json_value(json.loads(s["ok"])), "accepted": True, "reser": {"k": "null"}})
+                acc["meta"].append((name, which, "ser", s["ok"], info[which]["ok"]))
             if which == "name" and de:
                 for wn, w in enumerate(witness.witnesses(root, env, limit=12)):
-                    wreqs.append(("w-%d-%d" % (n, wn), "L%d" % n, json.dumps(w), root, name, info[which]["ok"], w))
-    res = c.deser([(a, b, cc) for a, b, cc, *_ in wreqs])
+                    wreqs.append(("w-%s%d-%d" % (prefix, n, wn), "%s%d" % (prefix, n), json.dumps(w), root, name, info[which]["ok"], w))
+    res = c.deser([(a_, b_, cc) for a_, b_, cc, *_ in wreqs]) if wreqs else {}
     for wid, uname, js, root, name, text, w in wreqs:
         r = res[wid]
-        acc = "ok" in r
-        records.append({"kind": "wit", "decls": [], "root": root, "json": tsparse.json_value(w), "accepted": acc,
-                        "reser": tsparse.json_value(json.loads(r["ok"])) if acc else {"k": "null"}})
-        meta.append((name, "name", "wit", js, text, r))
+        acc_ = "ok" in r
+        acc["records"].append({"kind": "wit", "decls": [], "root": root, "json": tsparse.json_value(w), "accepted": acc_,
+                               "reser": tsparse.json_value(json.loads(r["ok"])) if acc_ else {"k": "null"}})
+        acc["meta"].append((name, "name", "wit", js, text, r))
+    for n, (name, ty, vals, de, users) in enumerate(rows):
+        d = obs["%s%d" % (dprefix, n)]["info"]["deps"]
+        if "ok" not in d:
+            v.fail({"prop": PROP, "row": name, "tag": "dependencies_panics"}, d)
+            continue
+        real = sorted({x[0] for x in d["ok"]})
+        acc["ndeps"] += 1
+        if real != sorted(users):
+            v.fail({"prop": PROP, "row": name, "tag": "dependencies"}, {"real": real, "expected": sorted(users), "type": ty})
+
+
+def run(tier):
+    t0 = time.time()
+    v = vlib.Verdicts(PROP)
+    acc = {"records": [], "meta": [], "ndeps": 0}
+    c = corpus.Corpus("builtins", build_units(), features=("serde-compat", "serde-json-impl"))
+    obs = c.observe()
+    env = bindlib.base_env(obs)
+    jv = [n for n, r_ in enumerate(ROWS) if r_[0] == "JsonValue"][0]
+    env["JsonValue"] = {k: bindlib.decl_record(obs["L%d" % jv]["info"]["decl"]["ok"])[k] for k in ("params", "body")}
+    if c.rejected:
+        raise ToolError("rows of the builtin table do not compile: %s" % json.dumps(c.rejected)[:1500])
+    judge_rows(ROWS, "L", "D", c, obs, env, v, acc)
+    c3 = corpus.Corpus("builtins3p", build_units3(), features=FEATURES3, extra_deps=DEPS3)
+    obs3 = c3.observe()
+    if c3.rejected:
+        raise ToolError("third-party rows do not compile: %s" % json.dumps(c3.rejected)[:1500])
+    judge_rows(ROWS3, "M", "E", c3, obs3, env, v, acc)
+    records, meta = acc["records"], acc["meta"]
     bad, tool, a = bindlib.adjudicate(records, env, "c12")
     for i in sorted(bad):
         m = meta[i - 1]
         v.fail({"prop": PROP, "row": m[0], "tag": "value_not_in_type" if m[2] == "ser" else "inhabitant_rejected", "which": m[1]},
                {"json": m[3], "type": m[4], "serde": m[5] if len(m) > 5 else None})
-    # dependencies: exactly the user types among the arguments
-    ndeps = 0
-    for n, (name, ty, vals, de, users) in enumerate(ROWS):
-        d = obs["D%d" % n]["info"]["deps"]
-        if "ok" not in d:
-            v.fail({"prop": PROP, "row": name, "tag": "dependencies_panics"}, d)
-            continue
-        real = sorted({x[0] for x in d["ok"]})
-        ndeps += 1
-        if real != sorted(users):
-            v.fail({"prop": PROP, "row": name, "tag": "dependencies"}, {"real": real, "expected": sorted(users), "type": ty})
     rc = v.finish()
     cov = {"states": a.distinct, "transitions": a.generated, "traces_validated_against_impl": len(records) - len(tool),
            "samples": [{"row": m[0], "kind": m[2], "json": m[3], "type": m[4]} for m in meta[:: max(1, len(meta) // 8)][:8]],
-           "rows": len(ROWS), "serialized_values": sum(1 for m in meta if m[2] == "ser"), "witnesses": sum(1 for m in meta if m[2] == "wit"),
-           "dependency_rows": ndeps, "exhaustive": False,
-           "rule": "one row per supported std / serde_json type (and compositions to depth 2-3); per row: real name() and inline() parsed; every representative value's real serde_json output and up to 12 type-directed witnesses judged by TLC; dependencies of `struct D { f: Row }` compared with the user types among the arguments"}
+           "rows": len(ROWS) + len(ROWS3), "third_party_rows": len(ROWS3), "serialized_values": sum(1 for m in meta if m[2] == "ser"),
+           "witnesses": sum(1 for m in meta if m[2] == "wit"), "dependency_rows": acc["ndeps"], "exhaustive": False,
+           "rule": "one row per supported std / serde_json / feature-gated third-party type (and compositions to depth 2-3); per row: real name() and inline() parsed; every representative value's real serde_json output and up to 12 type-directed witnesses judged by TLC; dependencies of `struct D { f: Row }` compared with the user types among the arguments"}
     vlib.write_evidence(PROP, tier, "model_checking", cov,
                         ["arrays carry values only up to N = 32 (serde's limit); N = 64 / 65 are checked by name only",
-                         "feature-gated third-party rows (chrono, uuid, url, ...) are not instantiated in this run"],
+                         "string-like types with a value grammar (addresses, dates, uuids, urls, versions) are checked for shape only: serialized values, no witnesses",
+                         "tokio's Mutex / RwLock / OnceCell have no serde impl: name and dependencies only"],
                         time.time() - t0, len(v.violations))
     return rc
 
